@@ -119,6 +119,13 @@ exp(N, "harmless", "loop target unpacked in the body",
     "    for _, (start_idx, end_idx, named_part_pattern) in sorted(part_patterns_by_index.items()):",
     "    for item in sorted(part_patterns_by_index.items()):\n        start_idx, end_idx, named_part_pattern = item[1]")
 
+exp(N, "harmless", "`if end_idx > last_start_idx: continue` with the substitution after it (harmless1)",
+    "        if end_idx <= last_start_idx:\n            result_pattern = result_pattern[:start_idx] + named_part_pattern + result_pattern[end_idx:]\n            last_start_idx = start_idx\n",
+    "        if end_idx > last_start_idx:\n            continue\n        result_pattern = result_pattern[:start_idx] + named_part_pattern + result_pattern[end_idx:]\n        last_start_idx = start_idx\n")
+exp(N, "break", "`if end_idx >= last_start_idx: continue` (adjacent parts no longer both replaced)",
+    "        if end_idx <= last_start_idx:\n            result_pattern = result_pattern[:start_idx] + named_part_pattern + result_pattern[end_idx:]\n            last_start_idx = start_idx\n",
+    "        if end_idx >= last_start_idx:\n            continue\n        result_pattern = result_pattern[:start_idx] + named_part_pattern + result_pattern[end_idx:]\n        last_start_idx = start_idx\n")
+
 # ---- _iter_part_patterns ------------------------------------------------------------------------------
 N = "iterPartPatterns"
 exp(N, "break", "`start_idx < 0` -> `start_idx <= 0` (occurrence at index 0 lost)",
@@ -160,6 +167,10 @@ exp(N, "harmless", "tuples inlined into the `yield`, length in a local",
 exp(N, "harmless", "f-string split into concatenation",
     "                named_part_pattern = f\"(?P<{field}>{part_pattern})\"",
     "                named_part_pattern = \"(?P<\" + field + \">\" + part_pattern + \")\"")
+
+exp(N, "harmless", "group name in a local, test negated, one f-string for both cases (harmless1)",
+    "            if field in used_fields:\n                named_part_pattern = f\"(?P<{field}_{len(used_fields)}>{part_pattern})\"\n            else:\n                named_part_pattern = f\"(?P<{field}>{part_pattern})\"\n",
+    "            if field not in used_fields:\n                group_name = field\n            else:\n                group_name = f\"{field}_{len(used_fields)}\"\n            named_part_pattern = f\"(?P<{group_name}>{part_pattern})\"\n")
 
 # ---- _convert_to_pep440 -----------------------------------------------------------------------------------
 N = "convertToPep440"
@@ -205,6 +216,19 @@ exp(N, "harmless", "the after-a-dot test directly in the `if`",
 exp(N, "harmless", "`x = x + ...` for `+=`; `_n` for `_`",
     "        pep440_pattern += \"[PYTAGNUM]\"", "        pep440_pattern = pep440_pattern + \"[PYTAGNUM]\"",
     also=[("    pep440_pattern, _ = re.subn(", "    pep440_pattern, _n = re.subn(")])
+
+exp(N, "harmless", "`sorted(PATTERN_PART_FIELDS.keys(), key=len, reverse=True)` for list() + .sort() (harmless1)",
+    "    part_names = list(PATTERN_PART_FIELDS.keys())\n    part_names.sort(key=len, reverse=True)\n",
+    "    part_names = sorted(PATTERN_PART_FIELDS.keys(), key=len, reverse=True)\n")
+exp(N, "harmless", "`sorted(PATTERN_PART_FIELDS, key=len, reverse=True)` (a dict iterates over its keys)",
+    "    part_names = list(PATTERN_PART_FIELDS.keys())\n    part_names.sort(key=len, reverse=True)\n",
+    "    part_names = sorted(PATTERN_PART_FIELDS, key=len, reverse=True)\n")
+exp(N, "break", "`sorted(PATTERN_PART_FIELDS.keys(), key=len)` (ascending: shortest part names first)",
+    "    part_names = list(PATTERN_PART_FIELDS.keys())\n    part_names.sort(key=len, reverse=True)\n",
+    "    part_names = sorted(PATTERN_PART_FIELDS.keys(), key=len)\n")
+exp(N, "break", "`sorted(PATTERN_PART_FIELDS.keys(), reverse=True)` is refused (no key)",
+    "    part_names = list(PATTERN_PART_FIELDS.keys())\n    part_names.sort(key=len, reverse=True)\n",
+    "    part_names = sorted(PATTERN_PART_FIELDS.keys(), reverse=True)\n")
 
 # ---- normalize_pattern ---------------------------------------------------------------------------------------
 N = "normalizePattern"
